@@ -173,6 +173,28 @@ type fragReader struct {
 	kind    int           // kind of the injected failure (see injected)
 }
 
+// seekFrag is a fragReader that can also seek, like a bytes.Reader or a file.
+type seekFrag struct{ *fragReader }
+
+func (s seekFrag) Seek(off int64, whence int) (int64, error) {
+	s.mu.Lock()
+	defer s.mu.Unlock()
+	var p int64
+	switch whence {
+	case io.SeekStart:
+		p = off
+	case io.SeekCurrent:
+		p = int64(s.pos) + off
+	case io.SeekEnd:
+		p = int64(len(s.data)) + off
+	}
+	if p < 0 {
+		return 0, errors.New("verif: negative position")
+	}
+	s.pos = int(p)
+	return p, nil
+}
+
 func srcPos(f *fragReader) int {
 	p, _ := f.position()
 	return p
@@ -401,6 +423,8 @@ type rcfg struct {
 	// PreFile: the earlier life reads this other stream to its end (io.Copy) before Reset(source)
 	PreFile string `json:"preFile,omitempty"`
 	PrePart int    `json:"prePart,omitempty"`
+	// Seek: the source also implements io.Seeker (as a bytes.Reader or a file does; seeking past the end is not an error)
+	Seek bool `json:"seek,omitempty"`
 	// PreConc: the concurrency of the earlier life (the judged life re-applies Conc after Reset)
 	PreConc int `json:"preConc,omitempty"`
 }
@@ -493,6 +517,9 @@ func runReaderDelay(data []byte, cfg rcfg, watchdog time.Duration, outLimit int,
 			done <- o
 		}()
 		var first io.Reader = src
+		if cfg.Seek {
+			first = seekFrag{src}
+		}
 		if cfg.PreBytes > 0 {
 			first = &fragReader{data: data, pattern: cfg.Frag}
 		}
@@ -554,7 +581,11 @@ func runReaderDelay(data []byte, cfg rcfg, watchdog time.Duration, outLimit int,
 					break
 				}
 			}
-			zr.Reset(src)
+			if cfg.Seek {
+				zr.Reset(seekFrag{src})
+			} else {
+				zr.Reset(src)
+			}
 			if afterPreLife != nil {
 				afterPreLife()
 				afterPreLife = nil
